@@ -298,7 +298,9 @@ def run(ctx) -> None:
             if tn and cn and all(c2.every_path_to_passes(x, gates=tn) for x in cn):
                 dominated = True
         in_validate = any(containment_quality(mv, t, lambda n: isinstance(n, ast.Name) and n.id == "target")[0] for t in vtests) or bool(dotdot)
-        ok = dominated or in_validate
+        # a test at validation time (Manifest.validate) cannot see the links that deployment itself creates for earlier
+        # entries (seed C18-1), so only a test that dominates the write inside the creation loop counts
+        ok = dominated
         elsewhere = [t for t in containment_tests(ep) if mentions_source(ep, t.call, lambda n: isinstance(n, ast.Name))
                      and not any(t.compare is x for x in ast.walk(lp))]
         why_bad = "; ".join(containment_quality(ep, t, key_pred)[1] for t in tests) or (
